@@ -24,6 +24,7 @@ type FuncResult struct {
 	Covers   []*Obligation
 	Err      error
 	Scenario string
+	Plan     *replayPlan
 }
 
 func (e *Exec) specEnv(st, old *State) *specCtx {
@@ -80,6 +81,7 @@ func (e *Exec) entryState(scen map[string]types.Type) *State {
 			e.sc.assert(fmt.Sprintf("(= (i-tag %s) %d)", v.S, e.sc.typeTag(t)))
 		}
 	}
+	e.planReplay(st)
 	for _, fv := range fn.FreeVars {
 		// captured variables are pointers to cells
 		v := e.freshVal(st, "fv."+fv.Name(), fv.Type())
@@ -321,6 +323,7 @@ func (eng *Engine) verifyFunc(fn *ssa.Function, fc *FuncContract, props []string
 		}
 	}
 	res.Obls = e.obls
+	res.Plan = e.plan
 	for _, o := range res.Obls {
 		o.Inputs = e.inputs
 		if scenName != "" {
